@@ -13,8 +13,9 @@ def plan(tier):
     p.exhaustive = [(tm.Cfg('n3p112-b1-r1', [1, 1, 2], [1], max_round=1, budget=1), ['NoLock', 'NoLockedProposal'])]
     if not quick:
         p.exhaustive += [(tm.Cfg('n3p112-b1-r2', [1, 1, 2], [1], max_round=2, budget=1), lock_goals),
-                         (tm.Cfg('n4-b0-r2', [1, 1, 1, 1], [4], max_round=2, budget=0), lock_goals),
-                         (tm.Cfg('n3p112-b2-r2', [1, 1, 2], [1], max_round=2, budget=2), ['NoUnlock'])]
+                         (tm.Cfg('n4-b0-r2', [1, 1, 1, 1], [4], max_round=2, budget=0), lock_goals)]
+        # measured: n3p112 with Byzantine budget 2 and rounds 0..2 generated 142 M states in 2 h without finishing; budget 2
+        # is explored exhaustively at rounds 0..1 by C01 (8.7 M distinct states) and by the unbounded-budget simulations below
     n = 30 if quick else 300
     p.sims = [(tm.Cfg('sim-lock-n4', [1, 1, 1, 1], [2], max_round=3, max_height=1, nbyz=1, budget=8, own_first=False,
                       useful_only=True), n, 110),
